@@ -99,7 +99,7 @@ def gen(rng, tier, index):
             main.append({"op": "cb_raise"})
         elif x < 0.50:
             main.append({"op": "sleep", "k": rng.choice([1, 2, 5])})
-        elif x < 0.75:
+        elif x < 0.82:
             main.append({"op": "tick"})
         elif x < 0.93:
             main.append({"op": "idle"})
@@ -156,7 +156,6 @@ def _child(scn, full_log, result):
     cbs = {}  # ident -> (scheduling thread number, scheduling seq, raises)
     runs = {}  # ident -> [(run seq, thread idx)]
     started = {}
-    expected_errors = [0]
     state = {"io": None, "phase": "setup", "status": None}
 
     def finish(fatal=None):
@@ -198,9 +197,12 @@ def _child(scn, full_log, result):
                         f"thread ({th}) but ran after it; schedule tail: " + sched.trail_text(30))
                     break
         n_err = len([r for r in env.records if r[0] == "tornado.application" and r[1] == "ERROR"])
-        if n_err != expected_errors[0]:
-            bad("error.log_mismatch", f"{expected_errors[0]} callbacks raised but {n_err} ERROR "
+        n_raised = sum(len(runs.get(i, ())) for i in cbs if cbs[i][2])
+        if n_err != n_raised:
+            bad("error.log_mismatch", f"{n_raised} callbacks raised but {n_err} ERROR "
                 "records on tornado.application")
+        if loop.unwoken:
+            probe("queued_without_wakeup", len(loop.unwoken))
         for msg, exc in env.loop_errors:
             bad("loop.callback_exception", f"{msg}: {exc}", f"loop.callback_exception/{exc}")
         for r in sched.threads:
@@ -251,8 +253,6 @@ def _child(scn, full_log, result):
         sched_seq[0] += 1
         ident = "t%d.%d" % (th, sched_seq[0])
         cbs[ident] = (th, sched_seq[0], raises)
-        if raises:
-            expected_errors[0] += 1
         log.ev("sched", ident, sched.cur.idx)
         state["io"].add_callback(callback, ident)
 
@@ -298,11 +298,12 @@ def _child(scn, full_log, result):
         for t in range(len(scn["threads"])):
             if t not in started:
                 started[t] = sched.spawn(foreign(t + 1, scn["threads"][t]), "F%d" % (t + 1))
-        # the tape keeps deciding until every foreign thread has finished and the loop has
-        # drained (idle = nobody can run, nothing due); only then round-robin takes over
-        await loop.idle()
+        # No switch to round-robin here: "lost" is judged at quiescence (no thread can run,
+        # nothing due), which does not depend on fairness, and the finite tape's default
+        # (keep running the current thread until it blocks or ends) terminates by itself.
+        # No final idle() wait either: resolving it would run whatever sits in the ready
+        # queue and so rescue a callback whose wake-up was lost.
         state["phase"] = "drain"
-        sched.set_fair()
 
     def on_loop_error(_loop, context):
         # (the core's handler logs the message, whose argument reprs contain addresses)
